@@ -596,6 +596,13 @@ func (e *Env) evalCall(n *gen.Node) (Val, bool) {
 			return Text(asciiUpper(a0.S)), true
 		}
 		return Text(asciiLower(a0.S)), true
+	case "substr":
+		// README, spec.md and the code disagree on (start, end) versus (start, length); with
+		// start 0 the two readings are the same text, so that much is defined
+		if len(args) == 3 && a0.K == VText && args[1].K == VInt && args[1].I == 0 && args[2].K == VInt && args[2].I >= 0 && args[2].I <= int64(len(a0.S)) {
+			return Text(a0.S[:args[2].I]), true
+		}
+		return e.undef("substr (documented meanings differ)")
 	case "strlen":
 		switch a0.K {
 		case VText:
@@ -719,6 +726,27 @@ func (e *Env) evalCall(n *gen.Node) (Val, bool) {
 			case VFloat:
 				wantFloat = true
 			case VInt:
+			case VText:
+				// README: "the list type support int, str, float types". A text that looks like a
+				// number is read as one by the engine (raw values are untyped), which is not
+				// documented; a list whose first element is any other text is a list of texts.
+				if _, isInt := PlainInt(a0.S); isInt {
+					return e.undef("list of numeric-looking texts")
+				}
+				if _, isFloat := PlainFloat(a0.S); isFloat {
+					return e.undef("list of numeric-looking texts")
+				}
+				if _, err := strconv.ParseFloat(strings.TrimSpace(a0.S), 64); err == nil || a0.S == "" {
+					return e.undef("list of numeric-looking texts")
+				}
+				out := make([]Val, len(args))
+				for i, v := range args {
+					if v.K != VText {
+						return e.undef("mixed list element kinds")
+					}
+					out[i] = v
+				}
+				return ListV(out), true
 			default:
 				return e.undef("list of texts")
 			}
